@@ -68,6 +68,15 @@ def gen_case(seed, tier, i):
         files['pytest.ini'] = '[pytest]\n'
         files['test_adv2.py'] = sent() + 'def test_x(fx_pa):\n    fx_pa\n'
     init = [{'op': 'fs', 'kind': 'write', 'path': p, 'content': c, 'mt': MT0} for p, c in sorted(files.items())]
+    with_zip = rng.random() < 0.3
+    if with_zip:
+        # an archive on the project's search path; one member declares latin-1 and contains a
+        # non-UTF-8 byte: reading its source through the zip importer raises inside the helper
+        init.append({'op': 'fs', 'kind': 'write_zip', 'path': 'vendor.zip', 'mt': MT0, 'members': {
+            'okzip.py': {'text': 'def okf(a):\n    return a\n'},
+            'badzip.py': {'text': '# -*- coding: latin-1 -*-\nNAME = "caf\u00e9"\ndef badf(b):\n    return b\n',
+                          'encoding': 'latin-1'},
+        }})
 
     popt = rng.choice(['default', 'sys_path', 'added', 'smart_off', 'insert'])
     project = {'path': '.'}
@@ -77,6 +86,8 @@ def gen_case(seed, tier, i):
         project['added_sys_path'] = ['.'] + (['pa'] if 'pa' in mods else [])
     elif popt == 'smart_off':
         project['smart_sys_path'] = False
+    if with_zip:
+        project['added_sys_path'] = list(project.get('added_sys_path') or []) + ['vendor.zip']
     tops = [m for m in mods if '.' not in m]
 
     def buffer():
@@ -93,6 +104,11 @@ def gen_case(seed, tier, i):
             b.add('import %s' % miss, [('infer', 'import ' + miss[:3], None)])
             b.add('from %s import thing' % miss.split('.')[0].replace('no_such', 'nosuch'),
                   [('goto', 'import th', {'follow_imports': True})])
+        if with_zip:
+            b.add('import okzip')
+            b.add('okzip.okf(1)', [('get_signatures', 'okf(', None)])
+            b.add('import badzip', [('infer', 'import badz', None)])
+            b.add('badzip.badf(1)', [('get_signatures', 'badf(', None), ('complete', 'badzip.', None)])
         if 'gi.repository' in mods:
             b.add('from gi.repository import Gtk', [('infer', 'import Gt', None), ('complete', 'import ', None)])
             b.add('Gtk.win', [('complete', 'Gtk.', None)])
